@@ -5,13 +5,13 @@ import itertools
 
 from ..driver import Clause, Outcome
 from ..langgen import lang_classes
-from ..modelgen import lang_and_model, build_language, build_model
+from ..modelgen import lang_and_model, build_language, build_model, corelang_models, shipped_spec
 from ..ref_eval import AbstractModel, evaluate
 from ..ref_lang import Lang, expr_ops
 from .. import tinylang
 
 PROPERTY = 'C01'
-RULE = ('random: G_lang x G_model (typed language generator, instance-model generator with shared, '
+RULE = ('random: G_lang x G_model (and G_model over the shipped coreLang) (typed language generator, instance-model generator with shared, '
         'many-to-many, cyclic and self links); exhaustive: set operators over all pairs of subsets of '
         '3 assets, transitive closure over all 2^9 link relations on 3 assets, subtype filter over all '
         'type assignments. Oracle: independent set-semantics evaluator over the case description; '
@@ -377,6 +377,13 @@ def _enum_subtype(tier):
                     'links': links, 'attackers': []}}
 
 
+def check_corelang(case) -> Outcome:
+    spec = shipped_spec()
+    if spec is None:
+        return Outcome()
+    return check_case({'spec': spec, 'model': case['model']})
+
+
 CLAUSES = [
     Clause('setops-exhaustive', check_case, kind='exhaustive', enumerate=_enum_setops,
            space='all pairs of subsets of 3 assets as operands of union/intersection/difference and nested forms'),
@@ -387,5 +394,8 @@ CLAUSES = [
     Clause('random', check_case, kind='random',
            strategy=lambda: lang_and_model({'max_assets': 5, 'max_expr_depth': 3},
                                            {'max_assets': 6, 'attackers': False, 'defenses': False}),
-           budget={'quick': 3000, 'thorough': 60000}),
+           budget={'quick': 8000, 'thorough': 80000}),
+    Clause('corelang-models', check_corelang, kind='random',
+           strategy=lambda: corelang_models(max_assets=7, attackers=False, defenses=False).map(lambda m: {'model': m}),
+           budget={'quick': 640, 'thorough': 8000}),
 ]
